@@ -82,3 +82,145 @@ package ast
 //@   callsite ParseAndEvaluate assumes @L-STACK result1 == nil ==> result0 != nil && astResultTyped(0, result0.Val)
 //@   ensures @never-nil-nil result1 == nil ==> result0 != nil
 //@   ensures result1 != nil ==> result0 == nil
+
+// ---- C11: node Equal / Children / Pos (the judge of "an equal tree" and the structure a tree walk sees) ----
+// Children lists exactly the operands, in the order written; Pos is the recorded position (or the first operand's).
+//@ func (n *Grammar) Children() []Node
+//@   requires n != nil
+//@   loop[0] invariant len(nodes) == len(n.Decls) && (forall k int :: {nodes[k]} 0 <= k && k < __i0 ==> nodes[k] == n.Decls[k])
+//@   ensures @operands-in-order len(result0) == len(n.Decls) && (forall k int :: {result0[k]} 0 <= k && k < len(n.Decls) ==> result0[k] == n.Decls[k])
+//@ func (n *PrecedenceDecl) Children() []Node
+//@   requires n != nil
+//@   loop[0] invariant len(nodes) == len(n.Handles) && (forall k int :: {nodes[k]} 0 <= k && k < __i0 ==> nodes[k] == n.Handles[k])
+//@   ensures @operands-in-order len(result0) == len(n.Handles) && (forall k int :: {result0[k]} 0 <= k && k < len(n.Handles) ==> result0[k] == n.Handles[k])
+//@ func (n *ConcatRHS) Children() []Node
+//@   requires n != nil
+//@   loop[0] invariant len(nodes) == len(n.Ops) && (forall k int :: {nodes[k]} 0 <= k && k < __i0 ==> nodes[k] == n.Ops[k])
+//@   ensures @operands-in-order len(result0) == len(n.Ops) && (forall k int :: {result0[k]} 0 <= k && k < len(n.Ops) ==> result0[k] == n.Ops[k])
+//@ func (n *AltRHS) Children() []Node
+//@   requires n != nil
+//@   loop[0] invariant len(nodes) == len(n.Ops) && (forall k int :: {nodes[k]} 0 <= k && k < __i0 ==> nodes[k] == n.Ops[k])
+//@   ensures @operands-in-order len(result0) == len(n.Ops) && (forall k int :: {result0[k]} 0 <= k && k < len(n.Ops) ==> result0[k] == n.Ops[k])
+//@ func (n *ProductionHandle) Children() []Node
+//@   requires n != nil
+//@   ensures @the-operand len(result0) == 1 && result0[0] == n.RHS
+//@ func (n *RuleDecl) Children() []Node
+//@   requires n != nil
+//@   ensures @the-operand len(result0) == 1 && result0[0] == n.RHS
+//@ func (n *OptRHS) Children() []Node
+//@   requires n != nil
+//@   ensures @the-operand len(result0) == 1 && result0[0] == n.Op
+//@ func (n *StarRHS) Children() []Node
+//@   requires n != nil
+//@   ensures @the-operand len(result0) == 1 && result0[0] == n.Op
+//@ func (n *PlusRHS) Children() []Node
+//@   requires n != nil
+//@   ensures @the-operand len(result0) == 1 && result0[0] == n.Op
+// Pos: the position written for the node; a concatenation / alternation starts where its first operand starts
+//@ func (n *Grammar) Pos() *lexer.Position
+//@   requires n != nil
+//@   ensures @recorded-position result0 == n.Position
+//@ func (n *RuleDecl) Pos() *lexer.Position
+//@   requires n != nil
+//@   ensures @recorded-position result0 == n.Position
+//@ func (n *OptRHS) Pos() *lexer.Position
+//@   requires n != nil
+//@   ensures @recorded-position result0 == n.Position
+//@ func (n *StarRHS) Pos() *lexer.Position
+//@   requires n != nil
+//@   ensures @recorded-position result0 == n.Position
+//@ func (n *PlusRHS) Pos() *lexer.Position
+//@   requires n != nil
+//@   ensures @recorded-position result0 == n.Position
+//@ func (n *TerminalRHS) Pos() *lexer.Position
+//@   requires n != nil
+//@   ensures @recorded-position result0 == n.Position
+//@ func (n *NonTerminalRHS) Pos() *lexer.Position
+//@   requires n != nil
+//@   ensures @recorded-position result0 == n.Position
+//@ func (n *StringTokenDecl) Pos() *lexer.Position
+//@   requires n != nil
+//@   ensures @recorded-position result0 == n.Position
+//@ func (n *RegexTokenDecl) Pos() *lexer.Position
+//@   requires n != nil
+//@   ensures @recorded-position result0 == n.Position
+//@ func (n *PrecedenceDecl) Pos() *lexer.Position
+//@   requires n != nil
+//@   ensures @recorded-position result0 == n.Position
+//@ func (n *TerminalHandle) Pos() *lexer.Position
+//@   requires n != nil
+//@   ensures @recorded-position result0 == n.Position
+//@ func (n *ProductionHandle) Pos() *lexer.Position
+//@   requires n != nil
+//@   ensures @recorded-position result0 == n.Position
+//@ func (n *EmptyRHS) Pos() *lexer.Position
+//@   ensures @no-position result0 == nil
+
+// Equal: two positions are equal when both are absent or both present with the same file, offset, line and column
+//@ spec func samePos(a *lexer.Position, b *lexer.Position) bool = (a == nil || b == nil) ? a == b : (a.Filename == b.Filename && a.Offset == b.Offset && a.Line == b.Line && a.Column == b.Column)
+//@ func equalPositions(lhs, rhs *lexer.Position) bool
+//@   ensures @same-position result0 == samePos(lhs, rhs)
+
+// Equal of a leaf: same node type, same written fields, same position. (wf: a tree holds no typed-nil node)
+//@ func (n *StringTokenDecl) Equal(rhs Node) bool
+//@   requires n != nil && (typeis(rhs, "*StringTokenDecl") ==> unbox(rhs, "*StringTokenDecl") != nil)
+//@   ensures @structural result0 == (typeis(rhs, "*StringTokenDecl") && n.Name == unbox(rhs, "*StringTokenDecl").Name && n.Value == unbox(rhs, "*StringTokenDecl").Value && samePos(n.Position, unbox(rhs, "*StringTokenDecl").Position))
+//@ func (n *RegexTokenDecl) Equal(rhs Node) bool
+//@   requires n != nil && (typeis(rhs, "*RegexTokenDecl") ==> unbox(rhs, "*RegexTokenDecl") != nil)
+//@   ensures @structural result0 == (typeis(rhs, "*RegexTokenDecl") && n.Name == unbox(rhs, "*RegexTokenDecl").Name && n.Regex == unbox(rhs, "*RegexTokenDecl").Regex && samePos(n.Position, unbox(rhs, "*RegexTokenDecl").Position))
+//@ func (n *TerminalHandle) Equal(rhs Node) bool
+//@   requires n != nil && (typeis(rhs, "*TerminalHandle") ==> unbox(rhs, "*TerminalHandle") != nil)
+//@   ensures @structural result0 == (typeis(rhs, "*TerminalHandle") && n.Terminal == unbox(rhs, "*TerminalHandle").Terminal && samePos(n.Position, unbox(rhs, "*TerminalHandle").Position))
+//@ func (n *NonTerminalRHS) Equal(rhs Node) bool
+//@   requires n != nil && (typeis(rhs, "*NonTerminalRHS") ==> unbox(rhs, "*NonTerminalRHS") != nil)
+//@   ensures @structural result0 == (typeis(rhs, "*NonTerminalRHS") && n.NonTerminal == unbox(rhs, "*NonTerminalRHS").NonTerminal && samePos(n.Position, unbox(rhs, "*NonTerminalRHS").Position))
+//@ func (n *TerminalRHS) Equal(rhs Node) bool
+//@   requires n != nil && (typeis(rhs, "*TerminalRHS") ==> unbox(rhs, "*TerminalRHS") != nil)
+//@   ensures @structural result0 == (typeis(rhs, "*TerminalRHS") && n.Terminal == unbox(rhs, "*TerminalRHS").Terminal && samePos(n.Position, unbox(rhs, "*TerminalRHS").Position))
+//@ func (n *EmptyRHS) Equal(rhs Node) bool
+//@   ensures @structural result0 == typeis(rhs, "*EmptyRHS")
+// Equal of a node with one operand: same type, same written fields, operands equal (eqv: what the operand's own Equal
+// answers, A-DISPATCH), same position - the inductive step of structural equality
+//@ func (n *ProductionHandle) Equal(rhs Node) bool
+//@   requires n != nil && n.RHS != nil && (typeis(rhs, "*ProductionHandle") ==> unbox(rhs, "*ProductionHandle") != nil)
+//@   ensures @structural result0 == (typeis(rhs, "*ProductionHandle") && n.LHS == unbox(rhs, "*ProductionHandle").LHS && eqv(n.RHS, unbox(rhs, "*ProductionHandle").RHS) && samePos(n.Position, unbox(rhs, "*ProductionHandle").Position))
+//@ func (n *RuleDecl) Equal(rhs Node) bool
+//@   requires n != nil && n.RHS != nil && (typeis(rhs, "*RuleDecl") ==> unbox(rhs, "*RuleDecl") != nil)
+//@   ensures @structural result0 == (typeis(rhs, "*RuleDecl") && n.LHS == unbox(rhs, "*RuleDecl").LHS && eqv(n.RHS, unbox(rhs, "*RuleDecl").RHS) && samePos(n.Position, unbox(rhs, "*RuleDecl").Position))
+//@ func (n *OptRHS) Equal(rhs Node) bool
+//@   requires n != nil && n.Op != nil && (typeis(rhs, "*OptRHS") ==> unbox(rhs, "*OptRHS") != nil)
+//@   ensures @structural result0 == (typeis(rhs, "*OptRHS") && eqv(n.Op, unbox(rhs, "*OptRHS").Op) && samePos(n.Position, unbox(rhs, "*OptRHS").Position))
+//@ func (n *StarRHS) Equal(rhs Node) bool
+//@   requires n != nil && n.Op != nil && (typeis(rhs, "*StarRHS") ==> unbox(rhs, "*StarRHS") != nil)
+//@   ensures @structural result0 == (typeis(rhs, "*StarRHS") && eqv(n.Op, unbox(rhs, "*StarRHS").Op) && samePos(n.Position, unbox(rhs, "*StarRHS").Position))
+//@ func (n *PlusRHS) Equal(rhs Node) bool
+//@   requires n != nil && n.Op != nil && (typeis(rhs, "*PlusRHS") ==> unbox(rhs, "*PlusRHS") != nil)
+//@   ensures @structural result0 == (typeis(rhs, "*PlusRHS") && eqv(n.Op, unbox(rhs, "*PlusRHS").Op) && samePos(n.Position, unbox(rhs, "*PlusRHS").Position))
+// Equal of a node with a list of operands: same type, same number of operands, pairwise equal IN ORDER
+//@ func (n *Grammar) Equal(rhs Node) bool
+//@   requires n != nil && (forall k int :: {n.Decls[k]} 0 <= k && k < len(n.Decls) ==> n.Decls[k] != nil) && (typeis(rhs, "*Grammar") ==> unbox(rhs, "*Grammar") != nil)
+//@   loop[0] invariant forall k int :: {n.Decls[k]} 0 <= k && k < __i0 ==> eqv(n.Decls[k], nn.Decls[k])
+//@   ensures @structural result0 == (typeis(rhs, "*Grammar") && len(n.Decls) == len(unbox(rhs, "*Grammar").Decls) && (forall k int :: {n.Decls[k]} 0 <= k && k < len(n.Decls) ==> eqv(n.Decls[k], unbox(rhs, "*Grammar").Decls[k])) && samePos(n.Position, unbox(rhs, "*Grammar").Position))
+//@ func (n *PrecedenceDecl) Equal(rhs Node) bool
+//@   requires n != nil && (forall k int :: {n.Handles[k]} 0 <= k && k < len(n.Handles) ==> n.Handles[k] != nil) && (typeis(rhs, "*PrecedenceDecl") ==> unbox(rhs, "*PrecedenceDecl") != nil)
+//@   loop[0] invariant forall k int :: {n.Handles[k]} 0 <= k && k < __i0 ==> eqv(n.Handles[k], nn.Handles[k])
+//@   ensures @structural result0 == (typeis(rhs, "*PrecedenceDecl") && n.Associativity == unbox(rhs, "*PrecedenceDecl").Associativity && len(n.Handles) == len(unbox(rhs, "*PrecedenceDecl").Handles) && (forall k int :: {n.Handles[k]} 0 <= k && k < len(n.Handles) ==> eqv(n.Handles[k], unbox(rhs, "*PrecedenceDecl").Handles[k])) && samePos(n.Position, unbox(rhs, "*PrecedenceDecl").Position))
+//@ func (n *ConcatRHS) Equal(rhs Node) bool
+//@   requires n != nil && (forall k int :: {n.Ops[k]} 0 <= k && k < len(n.Ops) ==> n.Ops[k] != nil) && (typeis(rhs, "*ConcatRHS") ==> unbox(rhs, "*ConcatRHS") != nil)
+//@   loop[0] invariant forall k int :: {n.Ops[k]} 0 <= k && k < __i0 ==> eqv(n.Ops[k], nn.Ops[k])
+//@   ensures @structural result0 == (typeis(rhs, "*ConcatRHS") && len(n.Ops) == len(unbox(rhs, "*ConcatRHS").Ops) && (forall k int :: {n.Ops[k]} 0 <= k && k < len(n.Ops) ==> eqv(n.Ops[k], unbox(rhs, "*ConcatRHS").Ops[k])))
+//@ func (n *AltRHS) Equal(rhs Node) bool
+//@   requires n != nil && (forall k int :: {n.Ops[k]} 0 <= k && k < len(n.Ops) ==> n.Ops[k] != nil) && (typeis(rhs, "*AltRHS") ==> unbox(rhs, "*AltRHS") != nil)
+//@   loop[0] invariant forall k int :: {n.Ops[k]} 0 <= k && k < __i0 ==> eqv(n.Ops[k], nn.Ops[k])
+//@   ensures @structural result0 == (typeis(rhs, "*AltRHS") && len(n.Ops) == len(unbox(rhs, "*AltRHS").Ops) && (forall k int :: {n.Ops[k]} 0 <= k && k < len(n.Ops) ==> eqv(n.Ops[k], unbox(rhs, "*AltRHS").Ops[k])))
+// a concatenation / alternation starts where its first operand starts (posv: what the operand's own Pos answers, A-DISPATCH)
+//@ ghost func posv(a any) *lexer.Position
+//@ func (n Node) Pos() *lexer.Position
+//@   assumed
+//@   ensures result0 == posv(n)
+//@ func (n *ConcatRHS) Pos() *lexer.Position
+//@   requires n != nil && (forall k int :: {n.Ops[k]} 0 <= k && k < len(n.Ops) ==> n.Ops[k] != nil)
+//@   ensures @first-operand (len(n.Ops) == 0 ==> result0 == nil) && (len(n.Ops) > 0 ==> result0 == posv(n.Ops[0]))
+//@ func (n *AltRHS) Pos() *lexer.Position
+//@   requires n != nil && (forall k int :: {n.Ops[k]} 0 <= k && k < len(n.Ops) ==> n.Ops[k] != nil)
+//@   ensures @first-operand (len(n.Ops) == 0 ==> result0 == nil) && (len(n.Ops) > 0 ==> result0 == posv(n.Ops[0]))
